@@ -8,6 +8,7 @@
 package seqx
 
 import (
+	"crypto/sha256"
 	"sort"
 	"sync"
 	"sync/atomic"
@@ -58,10 +59,21 @@ func less(a, b []int) bool {
 	return len(a) < len(b)
 }
 
+// hkey: the visited set keeps a 128-bit digest of each canonical key, not the key (keys are long strings and
+// thorough searches reach tens of millions of states). Two different states are merged only on a collision of
+// truncated SHA-256 (probability about n^2/2^129).
+type hkey [16]byte
+
+func digest(k string) (h hkey) {
+	d := sha256.Sum256([]byte(k))
+	copy(h[:], d[:16])
+	return
+}
+
 // Explore runs the search on vk.Workers() goroutines. The set of states and
 // the representative history of each state are independent of scheduling.
 func Explore(s Spec) Result {
-	seen := map[string]struct{}{s.InitKey: {}}
+	seen := map[hkey]struct{}{digest(s.InitKey): {}}
 	frontier := []node{{nil, s.InitOps}}
 	res := Result{States: 1, Complete: true}
 	for level := 0; level <= s.Depth && len(frontier) > 0; level++ {
@@ -76,7 +88,7 @@ func Explore(s Spec) Result {
 			}
 		}
 		var mu sync.Mutex
-		next := map[string]node{}
+		next := map[hkey]node{}
 		var stopped int32
 		vk.ParallelFor(len(jobs), func(j int) {
 			if atomic.LoadInt32(&stopped) != 0 {
@@ -93,10 +105,11 @@ func Explore(s Spec) Result {
 				return
 			}
 			h := append(append(make([]int, 0, len(n.hist)+1), n.hist...), jobs[j].op)
+			dk := digest(key)
 			mu.Lock()
-			if _, ok := seen[key]; !ok {
-				if old, ok := next[key]; !ok || less(h, old.hist) {
-					next[key] = node{h, ops}
+			if _, ok := seen[dk]; !ok {
+				if old, ok := next[dk]; !ok || less(h, old.hist) {
+					next[dk] = node{h, ops}
 				}
 			}
 			mu.Unlock()
@@ -107,19 +120,14 @@ func Explore(s Spec) Result {
 		if atomic.LoadInt32(&stopped) != 0 {
 			res.Complete = false
 		}
-		keys := make([]string, 0, len(next))
-		for k := range next {
-			keys = append(keys, k)
-		}
-		sort.Strings(keys)
-		frontier = frontier[:0]
-		for _, k := range keys {
+		frontier = make([]node, 0, len(next))
+		for k, n := range next {
 			seen[k] = struct{}{}
-			frontier = append(frontier, next[k])
+			frontier = append(frontier, n)
 		}
 		sort.Slice(frontier, func(i, j int) bool { return less(frontier[i].hist, frontier[j].hist) })
-		res.States += len(keys)
-		res.PerLevel = append(res.PerLevel, len(keys))
+		res.States += len(next)
+		res.PerLevel = append(res.PerLevel, len(next))
 		if !res.Complete {
 			break
 		}
